@@ -107,3 +107,26 @@ Definition show_print (T : tables) (inputs : list (string * value)) (prog : list
       end
   | _ => "BADPROG"%string
   end.
+
+(* DIRECT stream: BuiltInFunction::call invoked WITHOUT the arity check on the argument vector that the list
+   literal `prog` evaluates to (harness `all-direct`): the explicit Panic arms of the model against the code.
+   The callback is FunctionDef::call one level down, like the `call_depth + 1` of the Rust arms. *)
+Definition show_outcome_value (o : outcome value) : string :=
+  match o with
+  | Ok v => ("OK:" ++ show_value None v)%string
+  | Err => "ERR"%string
+  | ErrDepth => "ERRDEPTH"%string
+  | Panic => "PANIC"%string
+  | Unmodelled => "UNMODELLED"%string
+  end.
+Definition show_direct (T : tables) (inputs : list (string * value)) (b : builtin) (prog : list stmt) : string :=
+  match prog with
+  | [SExpr e] =>
+      match eval_run T (s_cfg (init_session inputs)) e with
+      | (Ok (VList vs), (st, fr)) =>
+          let o := oracle_of T in
+          show_outcome_value (fst (builtin_all o (AD true (binop_all o) (builtin_all o) 999 fr) b vs st))
+      | _ => "ARGERR"%string
+      end
+  | _ => "BADPROG"%string
+  end.
